@@ -182,17 +182,6 @@ pub async fn ignores(args: &Args, vcs_types: &[ProjectType]) -> Result<Vec<Ignor
 		"combined and applied overall vcs filter over ignores"
 	);
 
-	ignores.extend(args.filtering.ignore_files.iter().map(|ig| IgnoreFile {
-		applies_to: None,
-		applies_in: None,
-		path: ig.clone(),
-	}));
-	debug!(
-		?ignores,
-		?args.filtering.ignore_files,
-		"combined with ignore files from command line / env"
-	);
-
 	if args.filtering.no_project_ignore {
 		ignores = ignores
 			.into_iter()
@@ -224,6 +213,28 @@ pub async fn ignores(args: &Args, vcs_types: &[ProjectType]) -> Result<Vec<Ignor
 		debug!(?ignores, "filtered ignores to exclude VCS-specific ignores");
 	}
 
+	// explicitly given ignore files are not subject to the discovery flags above
+	ignores.extend(explicit_ignores(args));
+	debug!(
+		?ignores,
+		?args.filtering.ignore_files,
+		"combined with ignore files from command line / env"
+	);
+
 	info!(files=?ignores.iter().map(|ig| ig.path.as_path()).collect::<Vec<_>>(), "found some ignores");
 	Ok(ignores)
+}
+
+/// Ignore files given explicitly with `--ignore-file` (or the environment), which are used
+/// whatever discovery is disabled.
+pub fn explicit_ignores(args: &Args) -> Vec<IgnoreFile> {
+	args.filtering
+		.ignore_files
+		.iter()
+		.map(|ig| IgnoreFile {
+			applies_to: None,
+			applies_in: None,
+			path: ig.clone(),
+		})
+		.collect()
 }
